@@ -323,6 +323,57 @@ func (m *Machine) heldAdequately(write bool) bool {
 	return false
 }
 
+// atomicOp runs one sync/atomic operation on the cell p: a scheduling point, ordered with the other
+// atomic operations on the same cell, and not itself subject to the race check.
+func (m *Machine) atomicOp(p Ptr, op func()) {
+	m.Yield(nil, "atomic")
+	if len(m.Sched.threads) > 1 {
+		cells, _ := m.Extra["atomiccells"].(map[string]*lockState)
+		if cells == nil {
+			cells = map[string]*lockState{}
+			m.Extra["atomiccells"] = cells
+		}
+		key := "nil"
+		if p.Obj != nil {
+			key = fmt.Sprintf("obj%d%v", p.Obj.ID, p.Path)
+		}
+		l := cells[key]
+		if l == nil {
+			l = &lockState{}
+			cells[key] = l
+		}
+		m.hbAcquire(l)
+		defer m.hbRelease(l)
+	}
+	was, _ := m.Extra["inatomic"].(bool)
+	m.Extra["inatomic"] = true
+	defer func() { m.Extra["inatomic"] = was }()
+	op()
+}
+
+type poolItem struct {
+	v  Value
+	vc map[int]int
+}
+
+type poolState struct{ items []poolItem }
+
+func (m *Machine) poolState(p Ptr) *poolState {
+	pools, _ := m.Extra["pools"].(map[int]*poolState)
+	if pools == nil {
+		pools = map[int]*poolState{}
+		m.Extra["pools"] = pools
+	}
+	id := 0
+	if p.Obj != nil {
+		id = p.Obj.ID
+	}
+	if pools[id] == nil {
+		pools[id] = &poolState{}
+	}
+	return pools[id]
+}
+
 // raceCell is the happens-before bookkeeping of one memory cell.
 type raceCell struct {
 	wTid, wClk int
@@ -371,6 +422,9 @@ func (m *Machine) raceCheck(key string, write bool) {
 
 func (m *Machine) raceOn() bool {
 	on, _ := m.Extra["raceon"].(bool)
+	if in, _ := m.Extra["inatomic"].(bool); in {
+		return false
+	}
 	return on && len(m.Sched.threads) > 1
 }
 
@@ -650,6 +704,10 @@ type ChanV struct {
 	timer  bool // fires at a nondeterministic moment
 	fired  bool
 	exhausted bool // the per-path budget of timer firings is used up: this timer never fires
+	// hb: happens-before clock of the channel. A send or close releases into it, a receive
+	// acquires from it (one clock per channel: a superset of Go's per-message edges, so the race
+	// check never reports a pair the memory model orders)
+	hb lockState
 }
 
 type sendItem struct {
@@ -692,6 +750,7 @@ func (m *Machine) chanSend(c *ChanV, v Value) {
 	if c.closed {
 		m.goPanicStr("send on closed channel")
 	}
+	m.hbRelease(&c.hb)
 	if len(c.buf) < c.cap {
 		c.buf = append(c.buf, copyVal(v))
 		return
@@ -736,6 +795,7 @@ func (m *Machine) chanRecv(c *ChanV, commaOk bool, t types.Type) Value {
 	}
 	m.Yield(c.recvReady, "chan recv")
 	v, ok := m.chanTake(c)
+	m.hbAcquire(&c.hb)
 	if commaOk {
 		return Tuple{v, m.S.Bool(ok)}
 	}
@@ -749,6 +809,7 @@ func (m *Machine) chanClose(c *ChanV) {
 	if c.closed {
 		m.goPanicStr("close of closed channel")
 	}
+	m.hbRelease(&c.hb)
 	c.closed = true
 	m.Yield(nil, "close")
 }
@@ -827,6 +888,7 @@ func (m *Machine) selectOp(fr *frame, i *ssa.Select) Value {
 		if c.ch.closed {
 			m.goPanicStr("send on closed channel")
 		}
+		m.hbRelease(&c.ch.hb)
 		if len(c.ch.buf) < c.ch.cap {
 			c.ch.buf = append(c.ch.buf, copyVal(c.v))
 		} else {
@@ -834,6 +896,7 @@ func (m *Machine) selectOp(fr *frame, i *ssa.Select) Value {
 		}
 	} else {
 		v, ok := m.chanTake(c.ch)
+		m.hbAcquire(&c.ch.hb)
 		res[1] = m.S.Bool(ok)
 		ri := 0
 		for k, st := range i.States {
